@@ -1,6 +1,7 @@
 package engine
 
 import (
+	"google.golang.org/grpc/interop/grpc_testing"
 	"larking.io/api/testpb"
 	"context"
 	"encoding/base64"
@@ -276,6 +277,9 @@ func marshalMsg(codec string, m proto.Message) []byte {
 // clientMsg is the message the client encodes (no path-bound fields: those
 // travel in the URL).
 func (r *reqState) clientMsg(i int) proto.Message {
+	if r.spec.Msgs[i].Over {
+		return overMessage(r.spec.Msgs[i])
+	}
 	p := payloadFor(r.spec.payloadID(), i, 'C', r.spec.Msgs[i])
 	if r.method.mkBody != nil && r.spec.Proto == "http" {
 		return r.method.mkBody(p)
@@ -295,6 +299,9 @@ func (r *reqState) unknownField(i int) bool {
 
 // expectedReq is the message the handler must see for client message i.
 func (r *reqState) expectedReq(i int) proto.Message {
+	if r.spec.Msgs[i].Over {
+		return overMessage(r.spec.Msgs[i])
+	}
 	p := payloadFor(r.spec.payloadID(), i, 'C', r.spec.Msgs[i])
 	pv := ""
 	if i == 0 && (r.spec.Proto == "http" || r.spec.Proto == "ws") {
@@ -1116,7 +1123,7 @@ func (mr *muxRun) globalInvariants(prop string) *Violation {
 		return violationf(prop, "harness-no-simulation", "harness", "the bubble did not start: %s", mr.bubblePanic)
 	}
 	if len(mr.openRefl) > 0 {
-		return violationf(prop, "reflection-stream-left-open", "RegisterConn", "every RegisterConn call had returned, yet reflection streams were still open on %v (the caller's context lives on, as context.Background() would): each such call leaves one more stream on the connection the requests use", mr.openRefl)
+		return violationf(prop, "reflection-stream-left-open", "RegisterConn", "every RegisterConn call had returned, yet reflection streams were still open on %v (the caller's context lives on, as context.Background() would): each such call leaves one more stream on the connection the requests use%s", mr.openRefl, mr.regErrors())
 	}
 	// metadata the handlers own and share stays as they made it; a response
 	// header set by a handler only ever carries that handler's own value
@@ -1315,4 +1322,35 @@ func (r *reqState) directTask(b *backend) {
 		}
 		res.Msgs = append(res.Msgs, m)
 	}
+}
+
+// overMessage builds a FullDuplexCall request of at least m.Size encoded bytes
+// out of many small repeated elements of slightly varying length: it
+// compresses well, and wherever it is cut, the odds are fair that the cut falls
+// between two elements, so that the remainder still parses - as a shorter
+// message.
+func overMessage(m MsgSpec) proto.Message {
+	out := &grpc_testing.StreamingOutputCallRequest{}
+	for i, n := 0, 0; n < m.Size; i++ {
+		e := &grpc_testing.ResponseParameters{Size: int32(1 + (i*37+int(m.Seed%97))%300), IntervalUs: int32(1 + i%3)}
+		out.ResponseParameters = append(out.ResponseParameters, e)
+		n += 2 + proto.Size(e)
+	}
+	return out
+}
+
+// regErrors lists the registrations that returned an error (for reports).
+func (mr *muxRun) regErrors() string {
+	var out []string
+	for _, g := range mr.registrars {
+		for _, rr := range g.res {
+			if rr.Err != nil {
+				out = append(out, fmt.Sprintf("op %d %s %s: %v", rr.Idx, rr.Op.Kind, rr.Op.Target, rr.Err))
+			}
+		}
+	}
+	if len(out) == 0 {
+		return ""
+	}
+	return "; registrations that returned an error: " + strings.Join(out, " | ")
 }
